@@ -75,6 +75,16 @@ Theorem C15b_dhcp_option_iff : forall e opt o parts rest h out,
   (parse_dhcp_tlv (out ++ rest) = Some ((o, concat parts), rest) <-> len (concat parts) < 256).
 Proof. exact dhcp_option_iff. Qed.
 
+Theorem C15b_len_be32_exact : forall e parts h,
+  call e "std::len_be32" [] (map VStr parts) h
+  = Some (Ok (VStr (be32 (len (concat parts) mod 4294967296) ++ concat parts), h)).
+Proof. exact len_be32_exact. Qed.
+
+Theorem C15b_len_be32_iff : forall e parts rest h out,
+  call e "std::len_be32" [] (map VStr parts) h = Some (Ok (VStr out, h)) ->
+  (parse_len_be32 (out ++ rest) = Some (concat parts, rest) <-> len (concat parts) < 4294967296).
+Proof. exact len_be32_iff. Qed.
+
 (** the hypotheses are met, on both sides of the boundary: 255 bytes parse back, 256 bytes declare 0 *)
 Example C15b_nonvacuous :
   let e := {| env_files := [] |} in
